@@ -412,6 +412,12 @@ func c05Handwritten(r *fw.Rec) {
 		"undefined/local-in-phi-value":                        "define i32 @f() {\nentry:\n  br label %next\nnext:\n  %p = phi i32 [ %missing, %entry ]\n  ret i32 %p\n}\n",
 		"undefined/local-in-call-argument":                    "declare void @g(i32)\ndefine void @f() {\n  call void @g(i32 %missing)\n  ret void\n}\n",
 		"undefined/local-in-bundle":                           "declare void @g()\ndefine void @f() {\n  call void @g() [ \"deopt\"(i32 %missing) ]\n  ret void\n}\n",
+		"duplicate/explicit-zero-inst-and-entry-block":        "define i32 @f(i32 %x) {\n  %0 = add i32 %x, 1\n  ret i32 %0\n}\n",
+		"duplicate/explicit-zero-twice":                       "define i32 @f() {\n0:\n  %0 = add i32 1, 2\n  ret i32 %0\n}\n",
+		"duplicate/explicit-zero-block-after-param":           "define i32 @f(i32) {\n0:\n  ret i32 %0\n}\n",
+		"duplicate/explicit-number-twice":                     "define i32 @f() {\n  %1 = add i32 1, 2\n  %1 = add i32 1, 3\n  ret i32 %1\n}\n",
+		"duplicate/param-in-declaration":                      "declare void @f(i32 %x, i32 %x)\n",
+		"duplicate/misnumbered-param-in-declaration":          "declare void @f(i32 %x, i32 %1)\n",
 		"duplicate/label-and-param":                           "define i32 @f(i32 %x) {\nx:\n  ret i32 %x\n}\n",
 		"duplicate/inst-then-label":                           "define i32 @f() {\nentry:\n  %next = add i32 1, 2\n  br label %next\nnext:\n  ret i32 0\n}\n",
 		"duplicate/invoke-result-and-label":                   "declare i32 @g()\ndefine i32 @f() personality i8* null {\nentry:\n  %ok = invoke i32 @g() to label %ok unwind label %lp\nok:\n  ret i32 0\nlp:\n  %l = landingpad i32 cleanup\n  ret i32 1\n}\n",
